@@ -996,8 +996,12 @@ def vars_render(case, target):
         if scheme == "secref" and q and q not in P:
             hole[p] = "${%s:%s}" % (VPOS[q][0], VPOS[q][1])
             continue
-        name = {"plain": "v%d" % p, "secref": "v%d" % p, "keylike": VKEYLIKE[p], "shared": VPOS_LIT[p]}[scheme]
-        variables[name] = lit
+        name = {"plain": "v%d" % p, "secref": "v%d" % p, "chained": "v%d" % p, "keylike": VKEYLIKE[p], "shared": VPOS_LIT[p]}[scheme]
+        if scheme == "chained":       # a variable defined through another variable
+            variables[name] = "${w%d}" % p
+            variables["w%d" % p] = lit
+        else:
+            variables[name] = lit
         hole[p] = "${%s}" % name
     for e in extra:
         variables.setdefault(e, LIT["Lextra"])
